@@ -15,3 +15,4 @@ func Consumer(bus interface{}, name string)        {}
 func Processed(bus interface{}, name string)       {}
 func Point(name string, args ...interface{})       {}
 func Observe(name string, args ...interface{})     {}
+func Emitting(bus interface{})                     {}
